@@ -20,6 +20,7 @@ var props = map[string]propCfg{
 	"C06": {engine: "bus", gen: true, race: true, level: "exploration", qShards: 12, tShards: 16, assume: busAssume},
 	"C10": {engine: "bus", gen: true, race: true, level: "exploration", qShards: 6, tShards: 16, qTimeout: 8 * time.Minute, assume: busAssume},
 	"C11": {engine: "bus", gen: true, race: true, level: "fault_enumeration", qShards: 12, tShards: 16, assume: busAssume},
+	"C12": {engine: "bus", gen: true, race: true, raceViol: true, level: "exploration", qShards: 8, tShards: 16, assume: busAssume},
 	"C13": {engine: "bus", gen: true, race: true, level: "exploration", qShards: 12, tShards: 16, assume: busAssume},
 	"C14": {engine: "bus", gen: true, race: true, level: "exploration", qShards: 12, tShards: 16, assume: busAssume},
 	"C15": {engine: "bus", gen: true, race: true, raceViol: true, racePkg: "qiloop/bus/directory", level: "exploration", qShards: 12, tShards: 16, assume: busAssume},
